@@ -187,24 +187,29 @@ def block_key(cb):
 
 
 def ints_exact(a):
+    """Observed values as integers.  Everything written is an integer >= 1; a value read back that is not an integer
+    (uninitialised memory, nan, inf, out of TLC's range) is recorded as -1: it is an observation that cannot equal
+    what was written, not a harness failure."""
     import numpy as np
 
-    a = np.asarray(a, dtype=float).ravel()
-    r = np.round(a)
-    if not np.array_equal(r, a):
-        raise RuntimeError(f"restored values are not the integers that were written: {a[:5]}")
-    return [int(x) for x in r]
+    out = []
+    for x in np.asarray(a, dtype=float).ravel():
+        if np.isfinite(x) and x == np.round(x) and abs(x) < 2 ** 30:
+            out.append(int(x))
+        else:
+            out.append(-1)
+    return out
 
 
 # ------------------------------------------------------------------------------------------------
 # one round trip on the real code (runs in a worker process)
 # ------------------------------------------------------------------------------------------------
-def _files(ex, mdg):
-    """[(kind, dim, entities)] in the order the exporter writes them."""
+def _files(mdg):
+    """[(kind, dim, entities)]: one vtu file per dimension for the subdomains and one for the interfaces."""
     out = []
-    for dim in ex._dims:
+    for dim in sorted({sd.dim for sd in mdg.subdomains()}):
         out.append(("sd", int(dim), list(mdg.subdomains(dim=int(dim)))))
-    for dim in ex._m_dims:
+    for dim in sorted({intf.dim for intf in mdg.interfaces(codim=1)}):
         out.append(("intf", int(dim), list(mdg.interfaces(dim=int(dim), codim=1))))
     return out
 
@@ -235,13 +240,9 @@ def round_trip(case):
 
     mixin = route.startswith("mixin")
     hist = case.get("hist")
-    model = None
-    if mixin:
-        model = _Model(mdg, folder, hist[0])
-        ex = model.exporter
-    else:
-        ex = pp.Exporter(mdg, NAME, folder_name=folder)
-    files = _files(ex, mdg)
+    model = ex = None
+    err = ""
+    files = _files(mdg)
     ents = [e for _, _, es in files for e in es]
     ncell = sum(e.num_cells for e in ents)
     # pairwise distinct integers over all steps and cells; the scalar and the three vector components
@@ -258,6 +259,11 @@ def round_trip(case):
 
     meshio.write = spy
     try:
+        if mixin:
+            model = _Model(mdg, folder, hist[0])
+            ex = model.exporter
+        else:
+            ex = pp.Exporter(mdg, NAME, folder_name=folder)
         for k, s in enumerate(steps):
             w = written[k]
             if case["via"] == "state":
@@ -267,10 +273,12 @@ def round_trip(case):
                     pp.set_solution_values("v", np.array(w[e][1], dtype=float).ravel(), d, time_step_index=0)
                 data = ["u", "v"]
             else:
-                data = [(e, "u", np.array(w[e][0], dtype=float)) for e in ents]
+                # (grid, key, array) tuples in md-grid order or, "permuted", in reverse md-grid order
+                order = list(enumerate(ents)) if case["via"] != "permuted" else list(enumerate(ents))[::-1]
+                data = [(e, "u", np.array(w[e][0], dtype=float)) for _, e in order]
                 # vectors alternately flat (cell by cell) and as a 3 x num_cells array
                 data += [(e, "v", np.array(w[e][1], dtype=float).ravel() if i % 2 == 0
-                          else np.array(w[e][1], dtype=float).T.copy()) for i, e in enumerate(ents)]
+                          else np.array(w[e][1], dtype=float).T.copy()) for i, e in order]
             if mixin:
                 model.data = data
                 model.time_manager.time = float(Fraction(*hist[k][0]))
@@ -282,6 +290,8 @@ def round_trip(case):
                 ex.write_vtu(data, time_step=s)
         if route == "pvd":
             ex.write_pvd()
+    except Exception as e:  # the export raising is an outcome (clause ImportSucceeds: no round trip), not a harness failure
+        err = f"export: {type(e).__name__}: {e}"[:300]
     finally:
         meshio.write = orig_write
 
@@ -293,21 +303,26 @@ def round_trip(case):
     # what was handed to meshio, file by file and step by step (mechanism)
     blocks = []
     for kind, dim, _ in files:
-        geom = ex.meshio_geom[dim] if kind == "sd" else ex.m_meshio_geom[dim]
         per_step = []
         for k in range(len(steps)):
-            mesh = captured[str(_vtu_name(folder, kind, dim, step_of(k)))]
-            per_step.append([dict(key=block_key(cb), ids=[int(i) for i in geom.cell_ids[b]],
-                                  data=ints_exact(mesh.cell_data["u"][b]))
-                             for b, cb in enumerate(mesh.cells)])
+            try:
+                geom = ex.meshio_geom[dim] if kind == "sd" else ex.m_meshio_geom[dim]
+                mesh = captured[str(_vtu_name(folder, kind, dim, step_of(k)))]
+                per_step.append([dict(key=block_key(cb), ids=[int(i) for i in geom.cell_ids[b]],
+                                      data=ints_exact(mesh.cell_data["u"][b]))
+                                 for b, cb in enumerate(mesh.cells)])
+            except Exception:  # nothing (usable) was handed to meshio for this file: an empty block list is observed
+                per_step.append([])
         blocks.append(per_step)
 
     # ---- import into a freshly built copy
     mdg2, sds2, intfs2 = build(spec)
     twin = dict(zip(sds, sds2))
     twin.update(zip(intfs, intfs2))
-    err, index, tm2 = "", -1, None
+    index, tm2 = -1, None
     try:
+        if err:
+            raise RuntimeError(err)
         if mixin:
             model2 = _Model(mdg2, folder, hist[0])
             tm2 = model2.time_manager
@@ -331,7 +346,7 @@ def round_trip(case):
             else:
                 index = ex2.import_from_pvd(folder / (NAME + ".pvd"), False, keys=["u", "v"])
     except Exception as e:  # the import raising is an outcome (clause ImportSucceeds), not a harness failure
-        err = f"{type(e).__name__}: {e}"[:300]
+        err = err or f"{type(e).__name__}: {e}"[:300]
 
     fin, fout = [], []
     for f, (kind, dim, es) in enumerate(files):
@@ -351,8 +366,8 @@ def round_trip(case):
     if mixin:
         inp["hist"] = hist
         inp["steps"] = list(range(len(steps)))
-        out["time"] = _rat(tm2.time) if not err else [0, 1]
-        out["dt"] = _rat(tm2.dt) if not err else [0, 1]
+        out["time"] = _rat_obs(tm2.time) if not err else [0, 1]
+        out["dt"] = _rat_obs(tm2.dt) if not err else [0, 1]
     shutil.rmtree(folder, ignore_errors=True)
     return {"in": inp, "out": out}
 
@@ -362,6 +377,14 @@ def _rat(x):
     if f.denominator > 2 ** 20 or abs(f.numerator) > 2 ** 30:
         raise RuntimeError(f"not a small dyadic rational: {x!r}")
     return [f.numerator, f.denominator]
+
+
+def _rat_obs(x):
+    """An observed time: anything that is not one of the small dyadic rationals written is recorded as -1."""
+    try:
+        return _rat(x)
+    except Exception:
+        return [-1, 1]
 
 
 def _Model(mdg, folder, first):
@@ -445,7 +468,7 @@ def _enumerate(ctx):
     fams = [dict(dim=2, keys={3, 4, 5}, maxcells=3 if q else 5, maxgrids=2, small=2 if q else 3, fracs={False, True}),
             dict(dim=3, keys={6, 8, 10}, maxcells=2 if q else 4, maxgrids=2 if q else 3, small=0, fracs={False})]
     rset = lambda xs: tlc.Raw("{" + ", ".join(tlc.tla(x) for x in xs) + "}")
-    consts = dict(Families=rset(fams), StepLists=rset(STEP_LISTS[:3] if q else STEP_LISTS), OneStep=ONE_STEP,
+    consts = dict(Families=rset(fams), StepLists=rset(STEP_LISTS[:2] if q else STEP_LISTS), OneStep=ONE_STEP,
                   TimeVals=rset(TIME_VALS[:3] if q else TIME_VALS), DtVals=rset(DT_VALS[:2] if q else DT_VALS),
                   MaxHist=2 if q else 3)
     m, cf = tlc.gen(ctx.work / "enum", "MC_ExportImport", "ExportImport", consts,
@@ -456,17 +479,17 @@ def _enumerate(ctx):
 def _cases(ctx, records):
     cases = []
     lay = [r for r in records if "layout" in r]
-    for i, r in enumerate(sorted(lay, key=lambda r: (r["dim"], r["layout"], r["route"], r["steps"], r["frac"]))):
+    for i, r in enumerate(sorted(lay, key=lambda r: (r["dim"], r["layout"], r["route"], r["steps"], r["frac"], r["via"]))):
         cases.append(dict(kind="rt", spec=dict(dim=r["dim"], layout=r["layout"], frac=bool(r["frac"])), route=r["route"],
-                          steps=r["steps"], seed=i, via="state" if i % 3 == 0 else "tuple"))
+                          steps=r["steps"], seed=i, via=r["via"]))
     # tetrahedral and Cartesian grids sharing a file (every cell becomes a polyhedron), both orders, and alone
     for j, lay3 in enumerate([[[4] * 6], [["c", 2]], [[4] * 6, ["c", 2]], [["c", 2], [4] * 6],
                               [[4] * 6, ["c", 1], [4] * 6]]):
         cases.append(dict(kind="rt", spec=dict(dim=3, layout=lay3, frac=False), route="vtu", steps=[ONE_STEP],
-                          seed=200000 + j, via="tuple"))
+                          seed=200000 + j, via="permuted" if len(lay3) > 1 else "tuples"))
     # fracture networks from the library: 0-d intersections, two-sided mortar grids, simplex cells
     for i, lib in enumerate(["cart2", "simplex2"] + ([] if ctx.quick else ["cart3"])):
-        cases.append(dict(kind="rt", spec=dict(lib=lib), route="mdgpvd", steps=[ONE_STEP], seed=9000 + i, via="tuple"))
+        cases.append(dict(kind="rt", spec=dict(lib=lib), route="mdgpvd", steps=[ONE_STEP], seed=9000 + i, via="permuted"))
         cases.append(dict(kind="rt", spec=dict(lib=lib), route="pvd", steps=[1, 2], seed=9100 + i, via="state"))
     # DataSavingMixin: (t0, dt) in quarters, three exported steps; plus one long run with twelve steps
     combos = [(0, 4), (0, 2), (0, 8), (4, 4)] if ctx.quick else [(0, 4), (0, 2), (0, 8), (4, 4), (0, 1), (8, 6), (0, 12)]
@@ -476,12 +499,12 @@ def _cases(ctx, records):
         for route in ("mixin_pvd", "mixin_mdgpvd", "mixin_vtu"):
             hist = [[_rat(Fraction(t0 + k * dt, 4)), _rat(Fraction(dt, 4))] for k in range(3)]
             cases.append(dict(kind="mixin", spec=dict(dim=2, layout=layouts[i % 2], frac=i % 2 == 1), route=route,
-                              steps=[0, 1, 2], seed=7000 + i, via="tuple", hist=hist))
+                              steps=[0, 1, 2], seed=7000 + i, via="permuted" if i % 2 == 1 else "tuples", hist=hist))
             i += 1
     hist = [[_rat(Fraction(k)), _rat(Fraction(1))] for k in range(12)]
     for route in ("mixin_pvd", "mixin_mdgpvd"):
         cases.append(dict(kind="mixin", spec=dict(dim=2, layout=[[4, 3]], frac=False), route=route,
-                          steps=list(range(12)), seed=7900, via="tuple", hist=hist))
+                          steps=list(range(12)), seed=7900, via="tuples", hist=hist))
     for k, h in enumerate(sorted(r["hist"] for r in records if "hist" in r)):
         cases.append(dict(kind="timeinfo", hist=h, kinds=KINDS[k % 3]))
     return cases
@@ -582,7 +605,7 @@ def run(ctx):
             continue
         lays = [f["layout"] for f in r["in"]["files"]]
         ids = [[i for b in f["blocks"][-1] for i in b["ids"]] for f in r["out"]["files"]]
-        ctx.case(key=(c["kind"], str(lays), c["route"], str(c["steps"])),
+        ctx.case(key=(c["kind"], str(lays), c["route"], str(c["steps"]), c["via"]),
                  nontrivial=any(x != sorted(x) for x in ids) or len(c["steps"]) > 1)
     shown = 0
     for c, r in zip(cases, res):
